@@ -126,6 +126,15 @@ Definition sub_sched_agree (c : sub_sched_case) : bool :=
 Definition has_disconnect (progs : list (list sop)) : bool :=
   existsb (existsb (fun o => match o with ODisconnect => true | _ => false end)) progs.
 
+Definition disp_of (prog : list sop) : list (N * bool) :=
+  concat (map (fun o => match o with ODispatch u h => [(u, h)] | _ => [] end) prog).
+Definition has_ready (progs : list (list sop)) : bool :=
+  existsb (existsb (fun o => match o with OReady => true | _ => false end)) progs.
+(* restricted to one thread's dispatches of one kind, the delivery order is the program order *)
+Definition order_ok (received : list N) (prog : list sop) (hist : bool) : bool :=
+  let l := map fst (filter (fun p => Bool.eqb (snd p) hist) (disp_of prog)) in
+  list_eqb N.eqb (filter (fun u => mem_N u l) received) (filter (fun u => mem_N u received) l).
+
 (* the properties' observable consequences on every explored schedule *)
 Definition sub_sched_ok (c : sub_sched_case) : bool :=
   let all_disp := dispatched (concat (ss_progs c)) in
@@ -136,4 +145,10 @@ Definition sub_sched_ok (c : sub_sched_case) : bool :=
     (* never more in flight than the buffer holds (nothing is consumed during the scenario) *)
     Nat.leb (length (ob_received o)) (ss_cap c) &&
     (* cut off, not starved: if some Dispatch was refused or the channel is open, bookkeeping is consistent *)
-    (ob_closed o || Nat.eqb (length (filter (fun b => negb b) (concat (ob_rets o)))) 0)) (ss_obs c).
+    (ob_closed o || Nat.eqb (length (filter (fun b => negb b) (concat (ob_rets o)))) 0) &&
+    (* C06: the live (resp. history) dispatches one thread makes one after the other are delivered in that order *)
+    forallb (fun prog => order_ok (ob_received o) prog true && order_ok (ob_received o) prog false) (ss_progs c) &&
+    (* C06/C07: once Ready has run and the subscriber was not cut off, every accepted update has been delivered *)
+    (negb (has_ready (ss_progs c)) || ob_closed o ||
+     forallb (fun pr => forallb (fun ur => negb (snd ur) || mem_N (fst (fst ur)) (ob_received o)) (combine (disp_of (fst pr)) (snd pr)))
+             (combine (ss_progs c) (ob_rets o)))) (ss_obs c).
